@@ -384,17 +384,46 @@ def check_bases(tree, cls, bases, fname):
     return node
 
 
+def _int_expr(e, env):
+    """value of an integer expression made of literals, names already read in the same scope and `<< | & + * **`
+    (`FLOAT = 1 << 10`, `ALL = A | B`), else None"""
+    if isinstance(e, ast.Constant) and isinstance(e.value, int) and not isinstance(e.value, bool):
+        return e.value
+    if isinstance(e, ast.Name) and isinstance(env.get(e.id), int) and not isinstance(env.get(e.id), bool):
+        return env[e.id]
+    if isinstance(e, ast.BinOp):
+        a, b = _int_expr(e.left, env), _int_expr(e.right, env)
+        if a is None or b is None or a < 0 or b < 0:
+            return None
+        if isinstance(e.op, ast.LShift) and b <= 64:
+            return a << b
+        if isinstance(e.op, ast.Pow) and b <= 64 and a <= 64:
+            return a ** b
+        if isinstance(e.op, (ast.BitOr, ast.BitAnd, ast.Add, ast.Mult)):
+            return {ast.BitOr: a | b, ast.BitAnd: a & b, ast.Add: a + b, ast.Mult: a * b}[type(e.op)]
+    return None
+
+
 def _literal_bindings(body, fname, what, kinds):
-    """name -> literal for the names bound in this scope by one plain `NAME = <literal>` and by nothing else"""
+    """name -> literal for the names bound in this scope by one plain `NAME = <literal>` and by nothing else; for integers
+    the right-hand side may also be a constant integer expression over names read before (see _int_expr)"""
     out, seen = {}, {}
     for st in body:
-        if (isinstance(st, ast.Assign) and len(st.targets) == 1 and isinstance(st.targets[0], ast.Name)
-                and isinstance(st.value, ast.Constant) and isinstance(st.value.value, kinds)
-                and (bool in kinds or not isinstance(st.value.value, bool))):
+        if (isinstance(st, ast.Assign) and len(st.targets) == 1 and isinstance(st.targets[0], ast.Name)):
             seen.setdefault(st.targets[0].id, []).append(st)
-    for name, sts in seen.items():
-        if len(sts) == 1 and not _other_bindings(body, name, sts[0]):
-            out[name] = sts[0].value.value
+    for st in body:
+        if not (isinstance(st, ast.Assign) and len(st.targets) == 1 and isinstance(st.targets[0], ast.Name)):
+            continue
+        name = st.targets[0].id
+        if len(seen[name]) != 1 or _other_bindings(body, name, st):
+            continue
+        if (isinstance(st.value, ast.Constant) and isinstance(st.value.value, kinds)
+                and (bool in kinds or not isinstance(st.value.value, bool))):
+            out[name] = st.value.value
+        elif int in kinds and not isinstance(st.value, ast.Constant):
+            v = _int_expr(st.value, out)
+            if v is not None:
+                out[name] = v
     return out
 
 
